@@ -487,3 +487,116 @@ func publishedThenWritten(p *Program, eff *Effects, fn *ssa.Function, ci *cacheI
 	}
 	return hits
 }
+
+// pooledMemoryEscapes: a function that hands an object back to a sync.Pool (Put, also deferred)
+// does not return memory of that object — the object itself, a slice / pointer derived from it, or
+// the pointer-like result of a method called on it (bytes.Buffer.Bytes()): the next Get may hand
+// the same memory to another caller while the first still holds the result.
+func pooledMemoryEscapes(p *Program, fns []*ssa.Function) (int, []Finding) {
+	n := 0
+	var hits []Finding
+	for _, fn := range fns {
+		for _, b := range fn.Blocks {
+			for _, in := range b.Instrs {
+				get, ok := in.(*ssa.Call)
+				if !ok {
+					continue
+				}
+				cl := calleeOf(&get.Call)
+				if cl.Pkg != "sync" || cl.Recv != "Pool" || cl.Name != "Get" {
+					continue
+				}
+				n++
+				derived := map[ssa.Value]bool{get: true}
+				for changed := true; changed; {
+					changed = false
+					for _, bb := range fn.Blocks {
+						for _, i2 := range bb.Instrs {
+							// results spilled to locals (named results, functions with defer)
+							if st, ok := i2.(*ssa.Store); ok {
+								if al, isAlloc := st.Addr.(*ssa.Alloc); isAlloc && derived[st.Val] && !derived[al] {
+									derived[al] = true
+									changed = true
+								}
+								continue
+							}
+							v, isVal := i2.(ssa.Value)
+							if !isVal || derived[v] {
+								continue
+							}
+							var src []ssa.Value
+							switch x := i2.(type) {
+							case *ssa.TypeAssert:
+								src = []ssa.Value{x.X}
+							case *ssa.Extract:
+								src = []ssa.Value{x.Tuple}
+							case *ssa.FieldAddr:
+								src = []ssa.Value{x.X}
+							case *ssa.IndexAddr:
+								src = []ssa.Value{x.X}
+							case *ssa.Slice:
+								src = []ssa.Value{x.X}
+							case *ssa.ChangeType:
+								src = []ssa.Value{x.X}
+							case *ssa.MakeInterface:
+								src = []ssa.Value{x.X}
+							case *ssa.UnOp:
+								if reachesPointerAny(x.Type()) {
+									src = []ssa.Value{x.X}
+								}
+							case *ssa.Phi:
+								src = x.Edges
+							case *ssa.Call:
+								// a pointer-like result of a method on the pooled object may be its memory
+								if !x.Call.IsInvoke() && len(x.Call.Args) > 0 && x.Call.Signature().Recv() != nil && reachesPointerAny(x.Type()) {
+									if _, isTuple := x.Type().(*types.Tuple); !isTuple {
+										src = []ssa.Value{x.Call.Args[0]}
+									}
+								}
+							}
+							for _, sv := range src {
+								if derived[sv] {
+									derived[v] = true
+									changed = true
+								}
+							}
+						}
+					}
+				}
+				// handed back in this function?
+				put := false
+				for _, bb := range fn.Blocks {
+					for _, i2 := range bb.Instrs {
+						ci, ok := i2.(ssa.CallInstruction)
+						if !ok {
+							continue
+						}
+						c2 := calleeOf(ci.Common())
+						if c2.Pkg == "sync" && c2.Recv == "Pool" && c2.Name == "Put" && len(ci.Common().Args) == 2 && derived[ci.Common().Args[1]] {
+							put = true
+						}
+					}
+				}
+				if !put {
+					continue
+				}
+				for _, bb := range fn.Blocks {
+					ret, ok := bb.Instrs[len(bb.Instrs)-1].(*ssa.Return)
+					if !ok {
+						continue
+					}
+					for _, r := range ret.Results {
+						if derived[r] && reachesPointerAny(r.Type()) {
+							pos := ret.Pos()
+							if !pos.IsValid() {
+								pos = fn.Pos()
+							}
+							hits = append(hits, Finding{fn, pos, "pooled-memory-not-returned", funcKey(fn) + ": returns memory of an object that the same function hands back to a sync.Pool: the next Get gives the same memory to another caller while this result is still in use"})
+						}
+					}
+				}
+			}
+		}
+	}
+	return n, hits
+}
